@@ -644,6 +644,47 @@ class TreeFacts:
                "_build_tree(%s)" % norm(call.args[0]) + ("" if kind == "rows" else "  [%s]" % why),
                "row indexing / row permutation of the indexed array only (no column-wise np.sort)",
                node=call, func=f)
+        # every row index applied on the way is a permutation of ALL rows (argsort / lexsort / a full slice): an index
+        # obtained from unique() keeps one row per distinct key - intervals sharing a lower bound would vanish
+        cur_ = arg
+        verdicts = []
+        while isinstance(cur_, (ast.Subscript, ast.Call)):
+            if isinstance(cur_, ast.Call):
+                last_ = (dotted(cur_.func) or "").split(".")[-1]
+                if last_ in ("asarray", "array", "ascontiguousarray") and cur_.args:
+                    cur_ = cur_.args[0]
+                    continue
+                if last_ == "take" and isinstance(cur_.func, ast.Attribute) and cur_.args:
+                    idx_, cur_ = cur_.args[0], cur_.func.value
+                else:
+                    break
+            else:
+                idx_, cur_ = cur_.slice, cur_.value
+            if isinstance(idx_, ast.Tuple):
+                break
+            ri = flow.resolve(idx_, at=call, depth=3, stop=(P,)) if not isinstance(idx_, ast.Slice) else idx_
+            if isinstance(ri, ast.Slice):
+                full = ri.lower is None and ri.upper is None and (ri.step is None or norm(ri.step) in ("1", "-1"))
+                verdicts.append((full, "slice %s" % norm(idx_)))
+                if not full:
+                    pass
+                continue
+            uniq = [c_ for c_ in ast.walk(ri) if isinstance(c_, ast.Call) and (dotted(c_.func) or "").split(".")[-1] == "unique"]
+            if uniq:
+                verdicts.append((False, "%s keeps one row per distinct key" % norm(ri)[:70]))
+                continue
+            if isinstance(ri, ast.Call) and (dotted(ri.func) or "").split(".")[-1] in ("argsort", "lexsort") \
+                    or (isinstance(ri, ast.Call) and isinstance(ri.func, ast.Attribute) and ri.func.attr == "argsort"):
+                verdicts.append((True, norm(ri)[:70]))
+                continue
+            if isinstance(ri, ast.Compare) or any(isinstance(n_, ast.Compare) for n_ in ast.walk(ri)):
+                verdicts.append((False, "boolean mask %s drops rows" % norm(ri)[:60]))
+                continue
+            raise AnalysisError("__init__: row index %s of the array handed to _build_tree is not understood" % norm(ri)[:80])
+        if kind == "rows":
+            ctx.ob("IntervalTree.__init__.row_order", all(v_ for v_, _ in verdicts), "row indices applied: %s" % ([w_ for _, w_ in verdicts] or "none"),
+                   "a permutation of all rows (argsort / lexsort / full slice): every stored interval - also one sharing its lower bound with another - reaches the tree",
+                   node=call, func=f)
         # list input is converted before .shape / indexing is used
         conv = [st for st in f.body if (isinstance(st, ast.If) and norm(st.test) == "not isinstance(%s, np.ndarray)" % P and len(st.body) == 1
                                         and norm(st.body[0]) == "%s = np.asarray(%s)" % (P, P))
